@@ -764,7 +764,7 @@ def check_c04(tier, seed, log=print):
                              samples=samples, leaves_proved_utf8_closed=closed, leaves_unknown=unknown,
                              model_vs_impl_disagreements=dis, impl_vs_oracle_failures=len(bad)))
     run.assumptions += ['callbacks that bump are outside spans_on_boundaries (NoBump); bump itself is C15',
-                        'look-around leaves: closure check not applicable (L), covered by the runner-side boundary predicate only']
+                        'look-around leaves: closure decided by the contextual check utf8ClosedCB (sound, not complete: viability of a derivative is over-approximated, an undecided leaf counts as unknown and is covered by the runner-side boundary predicate only); spans_on_boundariesC']
     return run.finish()
 
 
